@@ -59,6 +59,10 @@ PRE = [
     (r"std::is_same_v<\s*affinity_t\s*,\s*tensor::DiagonalTensor<double>\s*>", "assortative"),
     (r"std::is_same_v<\s*direction_t\s*,\s*boost::bidirectionalS\s*>", "directed"),
     (r"\(\*\s*mat_fixed_old\s*\)", "mat_fixed_old"),
+    (r"std::is_same_v<\s*tensor_t\s*,\s*tensor::DiagonalTensor<double>\s*>", "assortative"),
+    (r"static_cast<\s*scalar_t\s*>\s*\(", "("),
+    (r"\bassert\s*\([^;]*\)\s*;", ""),
+    (r"\bdimension_t\b", "size_t"),
     (r"\bstd::tie\b", "tie"),
 ]
 
@@ -339,6 +343,7 @@ class Emit:
         self.counter = [0]     # loops seen so far at each nesting level
         self.defs = []         # (name, index signature, body lines) of the loop bodies, innermost first
         self.returns = 0
+        self.draws = 0         # generator calls seen in the statement being translated
         self.edge_alias = []   # (iterator name, layer expr) -> target variable
 
     # type of an expression: 'D' double, 'N' natural, 'B' bool
@@ -365,6 +370,8 @@ class Emit:
                 return "D"
             if f[0] == "var" and f[1] == "boost::target":
                 return "N"
+            if f[0] == "var" and f[1] == getattr(self.fn, "draw_call", None):
+                return "D"
             if f[0] == "var" and f[1] in self.fn.calls:
                 return self.fn.call_types[f[1]]
             raise Lost("unknown call %s" % (f,))
@@ -445,6 +452,11 @@ class Emit:
                         if it == args[0][1][1]:
                             return tgt
                 raise Lost("boost::target outside its edge loop")
+            if n == getattr(self.fn, "draw_call", None):
+                if args:
+                    raise Lost("the generator is called with arguments")
+                self.draws += 1
+                return "(d s.pos)"
             if n in self.fn.calls:
                 want, lean = self.fn.calls[n]
                 got = ",".join(norm_ws(self.src_of(a)) for a in args)
@@ -554,6 +566,19 @@ class Emit:
         return out
 
     def stmt(self, st, ind):
+        pad = "  " * ind
+        k = st[0]
+        if k in ("assign", "opassign"):
+            self.draws = 0
+            lines = self.stmt_core(st, ind)
+            if self.draws > 1:
+                raise Lost("more than one generator call in one statement")
+            if self.draws == 1:
+                lines.append(pad + self.set_field("pos", "s.pos + 1"))
+            return lines
+        return self.stmt_core(st, ind)
+
+    def stmt_core(self, st, ind):
         pad = "  " * ind
         k = st[0]
         if k == "assign":
